@@ -50,7 +50,7 @@ def gen_case(streams, tier):
     cfg = gen.make_cfg(nets=(2, 14), names=g.choice(['plain', 'awkward']),
                        mem_wide_aw=0.0)
     script = gen.gen_script(g, cfg)
-    script, stage = gen.maybe_stage(g, script, 0.2, ['sim', 'fast', 'export', 'analysis', 'optimized_copy', 'copy'])
+    script, stage = gen.maybe_stage(g, script, 0.2, ['sim', 'fast', 'export', 'analysis', 'optimized_copy', 'copy', 'reset'])
     ncyc = streams['inputs'].randint(3, 14)
     has_mem = any(not m.get('rom') for m in script['mems'])
     init = gen.gen_init(g, script, allow_default=not (kind == 'compiled' and has_mem))
@@ -91,6 +91,7 @@ def gen_case(streams, tier):
         'stage': stage,
         'writer_fault': f.randrange(0, 30) if f.random() < 0.3 else None,
         'assert_exc': f.choice(['custom', 'custom', 'pyrtl', 'value', 'internal']),
+        'bad_batch': f.randrange(64) if f.random() < 0.4 else None,
         'sched': world.gen_sched(streams),
     }
 
@@ -298,6 +299,7 @@ def run(case, res):
     except Exception as e:
         return Violation('constructor', 'simulator_refuses_valid_block', {'exc': repr(e)[:300]}, [kind])
     widths = {w.name: w.bitwidth for w in b.block.wirevector_set}
+    ins_w_all = sorted((w['n'], w['w']) for w in script['wires'] if w['k'] == 'I')
     res.shape = hashlib.sha1((kind + script_shape(script)).encode()).hexdigest()[:12]
     res.sched = hashlib.sha1(repr([case['batches'], sched.get('hash_seed')]).encode()).hexdigest()[:12]
     res.probes.hit('kind:' + kind)
@@ -377,8 +379,11 @@ def run(case, res):
                 cell = (pos + k, o)
                 true = exp[pos + k][o]
                 if cell in wrong:
-                    col.append(true + wrong[cell])
-                    planted.append((k, o, true + wrong[cell], true, pos))
+                    bad = true + wrong[cell]
+                    if (pos + k + len(o)) % 3 == 1:
+                        bad = -bad              # a wrong expectation may be any integer
+                    col.append(bad)
+                    planted.append((k, o, bad, true, pos))
                     use = True
                 elif (pos + k + len(o)) % 3 == 0:
                     col.append('?')
@@ -408,7 +413,7 @@ def run(case, res):
                             prov[k] = ''.join(str(v) for v in prov[k])
                             res.probes.hit('string_form_inputs')
                     for o in list(expected):
-                        if all(x == '?' or 0 <= x <= 9 for x in expected[o]):
+                        if all(x == '?' or (isinstance(x, int) and 0 <= x <= 9) for x in expected[o]):
                             expected[o] = ''.join(str(x) for x in expected[o])
                             res.probes.hit('string_form_expected')
                 twin.step_multiple(prov, expected, file=buf, stop_after_first_error=stop_flag)
@@ -455,6 +460,35 @@ def run(case, res):
         if a != t:
             return Violation('step_multiple', 'trace_differs_from_single_steps',
                              {'wire': name, 'steps': a[:8], 'multi': t[:8]}, [kind])
+    # ---- a batch that is refused at its k-th step (k >= 1): the k steps before it are steps --
+    if ncyc >= 2 and case.get('bad_batch') is not None and ins_w_all:
+        k = 1 + case['bad_batch'] % (min(ncyc, 4) - 1)
+        try:
+            trip = replica.make_sim(kind, live, init, tracer='all')
+        except Exception:
+            trip = None
+        if trip is not None:
+            bw_name, bw_width = ins_w_all[case['bad_batch'] % len(ins_w_all)]
+            cols = {n: [tape[j][n] for j in range(k + 1)] for n in tape[0]}
+            cols[bw_name][k] = (1 << bw_width) + 1
+            try:
+                trip.step_multiple(cols, file=io.StringIO())
+            except pyrtl.PyrtlError:
+                res.faults.hit('batch_refused_at_a_later_step')
+                if world.tracelen(trip) != k:
+                    return Violation('step_multiple', 'steps_before_the_refused_one_not_taken',
+                                     {'refused_at': k, 'trace_len': world.tracelen(trip)}, [kind])
+                for name in trip.tracer.trace:
+                    if list(trip.tracer.trace[name])[:k] != list(sim.tracer.trace[name])[:k]:
+                        return Violation('step_multiple', 'trace_differs_from_single_steps',
+                                         {'wire': name, 'refused_at': k}, [kind])
+            except Exception as e:
+                if not is_planted(e):
+                    raise
+            else:
+                return Violation('reject_step', 'illegal_input_simulated',
+                                 {'sim': kind, 'in_batch_at': k}, [kind])
+            trip = None
     # ---- writer fault: the file object fails on its k-th write; the trace is only read ----
     if case.get('writer_fault') is not None:
         before = {n: list(vs) for n, vs in sim.tracer.trace.items()}
